@@ -94,6 +94,50 @@ theorem c11_notify_exactly_once (s : QState) (hq : QInv s) (t : String) (n : Nat
     notifyLoop_spec n (s.heaps t).length s (s.heaps t) hq.running (hq.ord t) (hq.fresh t) (hq.nodup t) (Nat.le_refl _)
   exact ⟨removed, r2, r7, r8.other⟩
 
+theorem eq_of_nodup_map {α β : Type} (f : α → β) (l : List α) (h : (l.map f).Nodup) (a b : α) (ha : a ∈ l)
+    (hb : b ∈ l) (e : f a = f b) : a = b := by
+  induction l with
+  | nil => cases ha
+  | cons x rest ih =>
+    simp only [List.map_cons, List.nodup_cons, List.mem_map, not_exists, not_and] at h
+    rcases List.mem_cons.mp ha with rfl | ha' <;> rcases List.mem_cons.mp hb with rfl | hb'
+    · rfl
+    · exact absurd e.symm (h.1 b hb')
+    · exact absurd e (h.1 a ha')
+    · exact ih h.2 ha' hb'
+
+/-- **acknowledged without error ⇒ already applied**: a waiter whose call is answered without error
+by a notification (its channel is closed rather than given an error) had a live context and a
+revision at or below the notified index — and the notified index is the leader index the node has
+just committed (`c11_notified_is_committed`); so a following read on the node observes the write -/
+theorem c11_ok_answer_means_applied (s : QState) (hq : QInv s) (t : String) (n : Nat) (it : Item)
+    (hit : it ∈ s.heaps t)
+    (hc : (notifyLoop n (s.heaps t).length s (s.heaps t)).1.chan it.id = { closed := true }) :
+    it.rev ≤ n ∧ s.ctxErr it.ctx = none := by
+  obtain ⟨removed, hperm, h2, h3⟩ := c11_notify_exactly_once s hq t n
+  by_cases hr : it.id ∈ removed.map (·.id)
+  · -- the waiter was answered by this notification
+    obtain ⟨it', hit', hid⟩ := List.mem_map.mp hr
+    have hmem' : it' ∈ s.heaps t := hperm.subset (List.mem_append_right _ hit')
+    -- one entry per waiter id
+    have heq : it' = it := by
+      have hnd := hq.nodup t
+      unfold IdsNodup at hnd
+      exact eq_of_nodup_map (·.id) _ hnd it' it hmem' hit hid
+    subst heq
+    obtain ⟨hans, hcase⟩ := h2 it' hit'
+    rw [hans] at hc
+    unfold answerOf at hc
+    cases he : s.ctxErr it'.ctx with
+    | some e => rw [he] at hc; simp at hc
+    | none =>
+      rcases hcase with h | h
+      · exact ⟨h, rfl⟩
+      · rw [he] at h; simp at h
+  · -- untouched: a queued waiter's channel is empty, not closed
+    rw [h3 it.id hr, hq.fresh t it hit] at hc
+    simp at hc
+
 /-- **the sweep answers every expired waiter, once, and keeps every live one** (this is what defect
 D5 broke: expired waiters that were not at the root stayed queued and were sent to again) -/
 theorem c11_sweep_table (s : QState) (hq : QInv s) (t : String) :
